@@ -120,6 +120,7 @@ def run(ctx) -> None:
     from .common import Relabel
     tooltables.tool_tables(ctx, "R06.8", tooltables.USES)
     tooltables.fault_tables(ctx, "R06.10")
+    r06_11(ctx)
     ctx.rule("R06.9", "islice pulls exactly the items itertools.islice pulls (R05.5, shared)")
     c05.r05_5(Relabel(ctx, "R06.9"))
     ctx.floor("tool_cells_decided", 340)
@@ -294,6 +295,51 @@ def _escapes(body, in_loop: bool) -> List[ast.AST]:
             for h in s.handlers:
                 out += _escapes(h.body, in_loop)
     return out
+
+
+def r06_11(ctx) -> None:
+    """An aggregation is a coroutine: what its user's callable raises leaves it as it is.  Inside an async generator frame a
+    StopAsyncIteration (StopIteration) that the callable raises is turned into a RuntimeError by the interpreter (PEP 479 /
+    525) - the generator-based tools share that with every generator; an aggregation that routes its callable through a
+    private generator helper of the library wraps an exception the builtin lets through."""
+    from asl.values import atoms_deep
+    ctx.rule("R06.11", "coroutine aggregations do not call their user's callable inside a private async generator helper "
+                       "(a StopAsyncIteration raised by the callable would come out as RuntimeError)")
+    shorts = ["builtins._min_max", "builtins.sorted", "functools.reduce", "heapq._largest", "builtins.all", "builtins.any",
+              "builtins.sum", "builtins.list", "builtins.tuple", "builtins.set", "builtins.dict", "heapq.nlargest", "heapq.nsmallest",
+              "builtins.min", "builtins.max"]
+    sites = 0
+    for short in shorts:
+        if not ctx.pkg.has_unit(short):
+            continue
+        u = ctx.inlined(ctx.unit(short))
+        if u.kind != "coroutine":
+            continue
+        cfg = cfg_of(u)
+        seen = set()
+        for n in cfg.nodes:
+            if n.tag or n.ast is None:
+                continue
+            for c in ast.walk(n.ast):
+                if not isinstance(c, ast.Call) or id(c) in seen:
+                    continue
+                seen.add(id(c))
+                r = ctx.pkg.resolve_expr_global(u.module, c.func)
+                t = ctx.pkg.lib_unit(r.qual) if r.kind == "lib" else None
+                if t is None or t.kind != "asyncgen" or not t.qualname.rsplit(".", 1)[-1].startswith("_") or ctx.pkg._is_public(t):
+                    continue
+                tcfg = cfg_of(t)
+                calls_user = [m for m in tcfg.nodes if m.kind == "call" and not m.tag and any(
+                    a[0] == "user" for a in ctx.vals.expr(t, m.ast.func, m))]
+                # ... a callable parameter of the helper that the aggregation fills with the user's (awaitified) callable
+                handed = any(any(a[0] in ("user", "libinst", "closure", "libfn") for a in ctx.vals.expr(u, arg, n)) for arg in c.args)
+                if calls_user and handed:
+                    sites += 1
+                    ctx.fail("R06.11", u, c, f"`{norm(c.func)}` is an async generator helper that calls a callable it is handed "
+                             f"(`{norm(calls_user[0].ast.func)}`): inside a generator frame a StopAsyncIteration raised by the user's "
+                             "callable is replaced by RuntimeError", node=n)
+    if not sites:
+        ctx.ok("R06.11", "aggregations", "no user callable is called inside a private generator helper of an aggregation")
 
 
 def _aexit_falsy(ctx) -> None:
